@@ -53,12 +53,19 @@ func phpCard(p, h int) []Con {
 
 func (c14) Enumerate(tier string, seed int64, yield func(string, core.Case) bool) {
 	thorough := tier == "thorough"
+	// tightTwin: the families below it are also run in the configuration "tight learned-constraint
+	// limit" (the database of learned PB constraints is reduced at every opportunity of the solver's own
+	// schedule, so constraints that are reasons of trail literals get deleted all along the run)
+	tightTwin := false
 	emit := func(fam string, p Prob, dev int, amoBoth bool) bool {
 		mode := "solve"
 		if p.CostL != nil {
 			mode = "optimal-chan"
 		}
 		if !yield(fam, ProbCase{P: p, Dev: dev, Mode: mode, CP: true}) {
+			return false
+		}
+		if tightTwin && !yield(fam+"/tight", ProbCase{P: p, Dev: dev, Mode: mode, CP: true, NbMax: -1}) {
 			return false
 		}
 		if amoBoth {
@@ -103,6 +110,7 @@ func (c14) Enumerate(tier string, seed int64, yield func(string, core.Case) bool
 	}) {
 		return
 	}
+	tightTwin = true
 	if !famM(seed, tier, func(name string, f [][]int, n int) bool {
 		if n > 12 {
 			return true
@@ -194,6 +202,7 @@ func (c14) Enumerate(tier string, seed int64, yield func(string, core.Case) bool
 			return
 		}
 	}
+	tightTwin = false
 	pbn := 0
 	enumConstraintSets(tier, func(fam string, p Prob) bool {
 		switch fam {
@@ -203,7 +212,7 @@ func (c14) Enumerate(tier string, seed int64, yield func(string, core.Case) bool
 			return emit(fam, p, 0, false)
 		case "pb2n3":
 			pbn++
-			if pbn%23 == 0 || (thorough && pbn%3 == 0) {
+			if pbn%23 == 0 || (thorough && pbn%7 == 0) {
 				if !withCosts(fam, p, 3, 0, false) {
 					return false
 				}
@@ -287,7 +296,7 @@ func (c14) Exec(cc core.Case, r *core.Rec) []core.Failure {
 			}
 		}
 	}
-	return exploreProb(r, c.Dev, c, "cutting-planes", func(choices []int) []core.Failure {
+	return exploreProbCfg(r, c.Dev, c.NbMax, c, "cutting-planes", func(choices []int) []core.Failure {
 		var evts []learnedEvt
 		o := runC14(c, &evts)
 		countStats(r, o.stats)
